@@ -209,6 +209,9 @@ def add_rules(rep, prog):
 def run(prog, rep, tier):
     remove_rules(rep, prog)
     add_rules(rep, prog)
+    # "returns an acyclic supergraph": add_edges accepts a candidate exactly when is_dag says so - C03's acyclicity core is part of it
+    from .C03 import acyclicity_core
+    acyclicity_core(rep, prog)
     pattern_entries(prog, rep, [(U + "add_edges", "A"), (U + "remove_edges", "A")], not_charged=(U + "topological_ordering",))
     rep.require_count("GUARD", 2)
     rep.require_count("PAT.entry", 2)
